@@ -186,12 +186,16 @@ structure Config where
   pendingInit : Bool
   /-- `evloop_io` clears `revents` of the slot it hands out. -/
   reventsCleared : Bool
+  /-- `invoke_watch` reads `watch->type` and `watch->t` before it calls the callback. -/
+  invokeTypeSaved : Bool
 deriving DecidableEq, Repr, Inhabited
 
 def Config.shipped : Config :=
-  { ioFlagMask := 2, timersPop := false, errnoSaved := false, pendingInit := false, reventsCleared := false }
+  { ioFlagMask := 2, timersPop := false, errnoSaved := false, pendingInit := false, reventsCleared := false,
+    invokeTypeSaved := false }
 def Config.repaired : Config :=
-  { ioFlagMask := 6, timersPop := true, errnoSaved := true, pendingInit := true, reventsCleared := true }
+  { ioFlagMask := 6, timersPop := true, errnoSaved := true, pendingInit := true, reventsCleared := true,
+    invokeTypeSaved := true }
 
 /-- One entry of `pollfds[]`/`pollwatches[]`.  `revents = none`: never written (uninitialised). -/
 structure PollSlot where
@@ -575,12 +579,22 @@ def unlinkOneshot (st : St) (a : Nat) : St :=
   else
     ((setListOf st (st.getW a).type ((listOf st (st.getW a).type).erase a)).setW a { st.getW a with type := .none }).free a
 
+/-- The same with the type `t` read *before* the callback (the repaired `invoke_watch`): the watch itself is
+    not touched unless it is found in its list, where it is live. -/
+def unlinkOneshotSaved (st : St) (a : Nat) (t : WType) : St :=
+  if t = .none || t = .io || t = .signal then st
+  else if !st.allLive ((listOf st t).takeWhile (· ≠ a)) then st.fail .invokeWatchWalk
+  else if !(listOf st t).contains a then st
+  else ((setListOf st t ((listOf st t).erase a)).setW a { st.getW a with type := .none }).free a
+
 /-- `invoke_watch` for a watch whose callback is the harness's (lines 297–333). -/
 def invokeWatch (st : St) (a : Nat) (flags : Nat) (info : Info) : St :=
   if !st.isOk then st
   else if !st.live a then st.fail .invokeWatchType
   else if !(if (st.getW a).slot ≥ 0 then fireUser st (st.getW a).slot flags info else st).isOk then
     (if (st.getW a).slot ≥ 0 then fireUser st (st.getW a).slot flags info else st)
+  else if st.cfg.invokeTypeSaved then
+    unlinkOneshotSaved (if (st.getW a).slot ≥ 0 then fireUser st (st.getW a).slot flags info else st) a (st.getW a).type
   else unlinkOneshot (if (st.getW a).slot ≥ 0 then fireUser st (st.getW a).slot flags info else st) a
 
 /-- The harness's `waitpid` knows only its virtual children. -/
